@@ -284,12 +284,13 @@ theorem constructDictionary_fresh (o : TokObj) (h0 : o.dictionarySize_ = 0) :
   rw [constructDictionary_struct, first4_fresh o h0, pushAll_append, tailStrings_eq, ← List.map_append]
   congr 4
 
-/-- the object `__init__` has built when it calls `_construct_dictionary` -/
+/-- the object `__init__` has built when it calls `_construct_dictionary`: defaults filled in, step sizes and note values
+    sorted WITHOUT DUPLICATES (`sorted(set(…))`, the repair of finding D31; before it: `.sort()`, `pySortInt`) -/
 def initObj (ppqn : Option Int) (numTracks : Int) (pitchRange : Int × Int) (stepSizes noteValues : Option (List Int))
     (bins : List Int) (tsRange : Int × Int) (running fuseTrk fuseVal fuseVel simplify : Bool) : TokObj :=
   { dictionary := [], inverseDictionary := [], dictionarySize_ := 0, ppqn := ppqn.getD Gen.ppqn,
-    stepSizes := pySortInt (stepSizes.getD Gen.defaultStepSizesShift1),
-    noteValues := pySortInt (noteValues.getD Gen.defaultNoteValues), numTracks := numTracks, pitchRange := pitchRange,
+    stepSizes := pySortedInt (pySetInt (stepSizes.getD Gen.defaultStepSizesShift1)),
+    noteValues := pySortedInt (pySetInt (noteValues.getD Gen.defaultNoteValues)), numTracks := numTracks, pitchRange := pitchRange,
     timeSignatureRange := tsRange, flagRunningValues := running, flagFuseTrack := fuseTrk, flagFuseValue := fuseVal,
     flagFuseVelocity := fuseVel, flagSimplifyTimeSignature := simplify, velocityBins := bins, curTime := none,
     curRestBuffer := none }
